@@ -13,6 +13,7 @@ Definition cfg_ok_sp (pol : policy) (c : cfg) : bool := explore_sp pol wit_sof N
 Definition cfg_ok_steps (pol : policy) (c : cfg) : bool := explore pol wit_sof N.eqb (chk_lin (fst c)) 400 (cfg_init c).
 
 Definition wit_nodes1 : list (N * N * N) := [(0, 0, 0); (wit_d1, 0, 0); (wit_so, 1, 51)].
+Fixpoint tails {A : Type} (l : list A) : list (list A) := match l with [] => [] | _ :: r => l :: tails r end.
 Definition follow (o : fop) : list fop := [o; FGet (fop_key o) 1].
 
 (* ---- the delete class {put_if_absent, get, delete} under the policy of the proposed patch ---- *)
@@ -20,10 +21,12 @@ Definition del_ops : list fop := [FPia 1 101 1; FPia 2 102 1; FGet 1 1; FDel 1 1
 (* A: two tasks, each one operation followed by a get of the same key; list 3 -> 1 (one collision chain) *)
 Definition famA : list cfg :=
   flat_map (fun o1 => map (fun o2 => (wit_nodes2, [follow o1; follow o2])) del_ops) del_ops.
-(* B: three tasks, one operation each *)
-Definition tri_ops : list fop := [FPia 1 101 1; FDel 1 1; FDel 3 1; FPia 2 102 1; FGet 1 1].
+(* B: three tasks, one operation each (as multisets: the tasks are interchangeable); list 1 *)
+Definition tri_ops : list fop := [FPia 1 101 1; FDel 1 1; FPia 2 102 1; FGet 1 1].
 Definition famB : list cfg :=
-  flat_map (fun o1 => flat_map (fun o2 => map (fun o3 => (wit_nodes2, [[o1]; [o2]; [o3]])) tri_ops) tri_ops) tri_ops.
+  flat_map (fun l1 => match l1 with [] => [] | o1 :: _ =>
+    flat_map (fun l2 => match l2 with [] => [] | o2 :: _ =>
+      map (fun o3 => (wit_nodes1, [[o1]; [o2]; [o3]])) l2 end) (tails l1) end) (tails tri_ops).
 (* C: delete followed by an insert (the shape in which a node is unlinked and a node is allocated) against another task *)
 Definition famC : list cfg :=
   flat_map (fun p0 => map (fun p1 => (wit_nodes2, [p0; p1]))
@@ -43,4 +46,7 @@ Definition patch_family_steps : list cfg :=
    and that no other task puts ---- *)
 Definition ins_ops : list fop := [FPia 1 101 1; FPia 2 102 1; FPia 2 112 1; FGet 2 1; FPut 4 104 1].
 Definition famI : list cfg :=
-  flat_map (fun o1 => flat_map (fun o2 => map (fun o3 => (wit_nodes2, [follow o1; [o2]; [o3]])) (tl ins_ops)) (tl ins_ops)) ins_ops.
+  flat_map (fun l1 => match l1 with [] => [] | o1 :: _ =>
+    flat_map (fun l2 => match l2 with [] => [] | o2 :: _ =>
+      map (fun o3 => (wit_nodes1, [[o1]; [o2]; [o3]])) l2 end) (tails l1) end) (tails ins_ops)
+  ++ flat_map (fun o1 => map (fun o2 => (wit_nodes2, [follow o1; follow o2])) ins_ops) ins_ops.
